@@ -92,16 +92,20 @@ def make_gvar_font(rnd, n_axes, avar_mode=None, n_tuples=(0, 5)):
     from fontTools.otlLib.builder import buildStatTable
 
     axes = rnd.sample(AXPOOL, n_axes)
-    order = list(G.ORDER) + list(ALT.values())
+    # 'AAnest' is a composite of the composite 'Aacute' and sorts BEFORE it by name
+    order = list(G.ORDER) + list(ALT.values()) + ["AAnest"]
     fb = FontBuilder(1000, isTTF=True)
     fb.setupGlyphOrder(order)
     fb.setupCharacterMap(G.CMAP)
     glyphs, npts = {}, {}
     for g in order:
         src = g.split(".")[0] if g.endswith(".alt") else g
-        struct = G.STRUCT[src]
+        struct = G.STRUCT[src] if g != "AAnest" else None
         pen = TTGlyphPen({n: None for n in order})
-        if struct is None:
+        if g == "AAnest":
+            pen.addComponent("Aacute", (1, 0, 0, 1, rnd.randint(-60, 60), rnd.randint(-60, 60)))
+            npts[g] = 1
+        elif struct is None:
             pen.addComponent("A", (1, 0, 0, 1, 0, 0))
             pen.addComponent("acutecomb", (1, 0, 0, 1, rnd.randint(250, 420), rnd.randint(-40, 120)))
             npts[g] = 2
